@@ -88,6 +88,22 @@ func Parse(path string, cfg *jsonpath.Config) (r ParseResult) {
 	return
 }
 
+// ParseN is Parse with any number of Config arguments (the exported signature is variadic).
+func ParseN(path string, cfgs ...jsonpath.Config) (r ParseResult) {
+	defer func() {
+		if e := recover(); e != nil {
+			r.Panic = fmt.Sprint(e)
+		}
+	}()
+	f, err := jsonpath.Parse(path, cfgs...)
+	r.F, r.Err = f, err
+	r.ErrType = ErrType(err)
+	if err != nil {
+		r.ErrMsg = safeErrMsg(err)
+	}
+	return
+}
+
 func safeErrMsg(err error) (s string) {
 	defer func() {
 		if e := recover(); e != nil {
@@ -191,6 +207,9 @@ type Env struct {
 	ImplFuncErrs int
 	Cfg          jsonpath.Config
 	CfgAcc       jsonpath.Config // same functions, accessor mode on
+	// Observe, when set, runs at the start of every user-function call the library makes
+	// (a user function is the one observer that legitimately runs DURING a retrieval)
+	Observe func()
 }
 
 // NewEnv builds the standard environment.
@@ -207,6 +226,9 @@ func NewEnv() *Env {
 			e.Model.Filter[name] = fn
 			rec := func(v interface{}) (interface{}, error) {
 				e.ImplLog = append(e.ImplLog, spec.Call{Name: name, Arg: v})
+				if e.Observe != nil {
+					e.Observe()
+				}
 				r, err := fn(v)
 				if err != nil {
 					e.ImplFuncErrs++
@@ -223,6 +245,9 @@ func NewEnv() *Env {
 			e.Model.Aggregate[name] = fn
 			rec := func(vs []interface{}) (interface{}, error) {
 				e.ImplLog = append(e.ImplLog, spec.Call{Name: name, Arg: append([]interface{}{}, vs...)})
+				if e.Observe != nil {
+					e.Observe()
+				}
 				r, err := fn(vs)
 				if err != nil {
 					e.ImplFuncErrs++
